@@ -40,6 +40,7 @@ typedef SSIZE_T ssize_t;
 #include <cctype>
 #include <cstdlib>
 #include <cstdio>
+#include <cstring>
 #include "ports.h"
 
 namespace rtosc {
@@ -80,7 +81,9 @@ void bundle_foreach(const struct Port& p, const char* name, char* const old_end,
                     /* options */
                     const bool expand_bundles = true,
                     const bool cut_afterwards = true,
-                    const bool ranges = false)
+                    const bool ranges = false,
+                    /* where to write (recursion for names with several '#') */
+                    char* const write_start = nullptr)
 {
     ssize_t space_left = buffer_size - (ssize_t)(old_end - name_buffer);
 #ifdef NDEBUG
@@ -89,7 +92,7 @@ void bundle_foreach(const struct Port& p, const char* name, char* const old_end,
     assert(space_left > 0);
     assert(space_left <= (ssize_t)buffer_size);
 
-    char *pos = old_end;
+    char *pos = write_start ? write_start : old_end;
     while(*name != '#') { assert(space_left); *pos++ = *name++; --space_left; }
     const unsigned max = atoi(name+1);
     const unsigned iterations = (expand_bundles && !ranges) ? max : 1;
@@ -109,6 +112,15 @@ void bundle_foreach(const struct Port& p, const char* name, char* const old_end,
             pos2 += snprintf(pos,16,"[0,%d]",max-1);
         else if(expand_bundles)
             pos2 = pos + snprintf(pos,16,"%d",i);
+
+        // further enumerations behind this one (a#N/b#M): expand them, too
+        if(expand_bundles && !ranges && strchr(name, '#'))
+        {
+            bundle_foreach(p, name, old_end, name_buffer, buffer_size, base,
+                           data, runtime, ftor, expand_bundles, false, ranges,
+                           pos2);
+            continue;
+        }
 
         // append everything behind the '#' (for cases like a#N/b)
         while(*name2_2 && *name2_2 != ':')
